@@ -19,6 +19,7 @@ import SfModel.Htk
 import SfModel.Wve
 import SfModel.Mpc2k
 import SfModel.Pvf
+import SfModel.Mat4
 import Driver.Util
 open Sf (hexBytes hexFixed parseHexBytes parseHexNat Byte)
 open Sf.Small2
@@ -89,8 +90,16 @@ def pvf : Container :=
     parse := Sf.Pvf.parse,
     quant := Sf.Pvf.quant }
 
+def mat4 : Container :=
+  { fmtOf := fun toks =>
+      let c : Sf.Mat4.Cfg := { codec := hexKey toks "codec", endian := endianOf toks, ch := kvNat toks "ch" 1, sr := kvNat toks "sr" 1 }
+      if decide c.wf then some (Sf.Mat4.fmt c) else none,
+    parse := Sf.Mat4.parse,
+    quant := Sf.Mat4.quant }
+
 def containerOf (name : String) : Option Container :=
   match name with
+  | "mat4" => some mat4
   | "pvf" => some pvf
   | "htk" => some htk
   | "wve" => some wve
